@@ -191,7 +191,17 @@ func suiteFragmentHuge(R *runner, r *rng) {
 			continue
 		}
 		s := &astisub.Subtitles{Items: items}
-		p := safely(func() { s.Fragment(time.Duration(f)) })
+		p := guarded(func() { s.Fragment(time.Duration(f)) }, 3*time.Second)
+		if p == "HANG" {
+			// the loop of the code as transcribed stops within the bound on this input: an implementation that is still
+			// running after 3 s is in a runaway loop (it appends a piece per turn); report and end the run before memory runs out
+			o.Impl, o.Oracle, o.Sig = "HANG", fmt.Sprintf("Fragment did not return within 3 s (period %d ns; the loop of every cue stops within %d tests)", f, bound), "fragment-huge-hang"
+			R.add(o)
+			if R.abort != nil {
+				R.abort()
+			}
+			return
+		}
 		if p != "" {
 			o.Impl, o.Oracle, o.Sig = "PANIC", "Fragment panicked: "+p, "fragment-panic"
 			R.add(o)
